@@ -173,11 +173,11 @@ func miscPatEncLen(n int) int {
 }
 
 type miscPatR struct {
-	rpc  uint32
-	dir  byte
-	msg  int
-	n    int
-	off  int
+	rpc uint32
+	dir byte
+	msg int
+	n   int
+	off int
 }
 
 func (r *miscPatR) Read(p []byte) (int, error) {
